@@ -5,7 +5,7 @@ LEVEL = "proof"
 TAGS = ("C14",)
 CONTRACT_MODULES = ALL_CONTRACTS
 FUNCTIONS = [H + "handleAtCommand", S + "disableExclusion", S + "enableExclusion", S + "exitExcludedRegion", S + "isAnyPointExcluded",
-             S + "isPointExcluded", S + "processLinearMoves", P + "handleAtCommandQueuing", "AtCommandAction.AtCommandAction.matches", "__init__.ExcludeRegionPlugin._handleSettingsUpdated"] + [S + "resetState"]
+             S + "isPointExcluded", S + "processLinearMoves", P + "handleAtCommandQueuing", "AtCommandAction.AtCommandAction.matches", "__init__.ExcludeRegionPlugin._handleSettingsUpdated"] + [S + "resetState"] + [P + "on_event"] + [H + "handleGcode", H + "_handle_G0", H + "_handle_G1", H + "_handle_G2", H + "_handle_G3"]
 ASSUMPTIONS = ["A1", "A2", "A3", "A4", "A5", "INDUCTION"]
 BOUNDED = [script("default_actions.py")]
 EXTRA_ASSUMPTIONS = ["the DEFAULT @-command patterns (get_settings_defaults) are checked bounded on the real AtCommandAction objects (bounded/default-actions); custom patterns are opaque predicates",
